@@ -140,6 +140,11 @@ def show(n):
     if k == "call":
         fn = a.get("ctor") or a.get("inst") or a.get("fn")
         name = fn.split("::")[-1] if fn else show(n[2])
+        if name in ("box_assume_init_into_vec_unsafe", "into_vec") and len(n) > 3:
+            # expansion of vec![a, b, c] (differs between toolchains): render as the macro
+            arrs = [x for x, _ in walk(n) if x[0] == "array"]
+            if arrs:
+                return "vec!" + show(arrs[0])
         return "%s(%s)" % (name, ", ".join(show(x) for x in n[3:]))
     if k == "block":
         ch = [x for x in n[2:]]
